@@ -694,3 +694,24 @@ def classify_piece_total(ctx, fn, e, consts, depth=0):
             and isinstance(e.operand.left, ast.UnaryOp):
         return "ok", txt              # -(-length // P)
     return "?", txt
+
+
+# ------------------------------------------------------------------------------------------ R11 existing files are read
+def existing_files_are_read(ctx, rid):
+    """The choice between reading a payload file and the all-zero stand-in depends on its existence only: a file that exists
+    (even with the wrong size) is read piece by piece, so its intact pieces still verify."""
+    n = 0
+    for q in ("torrentfile.recheck:FeedChecker.iter_pieces", "torrentfile.recheck:HashChecker.next_file"):
+        fn = ctx.prog.func(q)
+        for st in own_nodes(fn.node):
+            if not isinstance(st, ast.If):
+                continue
+            atoms = C.atoms_of(st.test)
+            ex = [a for a in atoms if isinstance(a, ast.Call) and (C.is_ext_call(ctx, a, fn, ("os.path.exists", "os.path.isfile")) or (isinstance(a.func, ast.Attribute) and a.func.attr in ("exists", "is_file")))]
+            if not ex:
+                continue
+            n += 1
+            extra = [a for a in atoms if a not in ex]
+            ctx.decide(rid, fn, not extra, "reader vs zero stand-in is chosen by existence alone",
+                       "a file that exists is replaced by the all-zero stand-in when `%s` fails: the intact pieces of a truncated or grown file are reported as failed, so the percentage is below the true share" % " / ".join(norm(a) for a in extra), st.test)
+    ctx.floor("reader selection tests", 2, n)
